@@ -12,5 +12,6 @@ git -C /repo checkout -- .
 keys=$(echo "$out" | grep -E "^  key=" | sed 's/^  key=\([^ ]*\).*/\1/' | sort -u | head -8 | tr '\n' ';')
 case $rc in 1) v=DETECTED;; 0) v=MISSED;; *) v="MACHINERY rc=$rc";; esac
 echo "RESULT C15S $(basename $patch) quick: $v"
-[ $rc -le 1 ] && printf '{"patch":"mutants/%s","check":"C15S","tier":"quick","result":"%s","mode":"repo-apply","repo_head":"%s","keys":"%s"}\n' "$(basename $patch)" "$v" "$(git -C /repo rev-parse --short HEAD)" "$keys" >> $here/seeded/RESULTS.jsonl
+rel=$(realpath --relative-to="$here" "$patch")
+[ $rc -le 1 ] && printf '{"patch":"%s","check":"C15S","tier":"quick","result":"%s","mode":"repo-apply","repo_head":"%s","keys":"%s"}\n' "$rel" "$v" "$(git -C /repo rev-parse --short HEAD)" "$keys" >> $here/seeded/RESULTS.jsonl
 ( cd $here/harness-stronghold && cargo build --release --offline -q -p vcheck-stronghold --bin c15s 2>&1 | tail -3 )
